@@ -2,11 +2,11 @@
 
 TIERS = {
     "C01": {
-        "quick": {"cases": 3000, "m_seeded": 3, "flip_n": 12, "wall": 600, "echo": 48},
+        "quick": {"cases": 30000, "m_seeded": 3, "flip_n": 12, "wall": 600, "echo": 48},
         "thorough": {"cases": 150000, "m_seeded": 16, "flip_n": 24, "wall": 7200, "echo": 256},
     },
     "C09": {
-        "quick": {"cases": 6000, "m_seeded": 3, "flip_n": 16, "wall": 600, "echo": 64},
+        "quick": {"cases": 16000, "m_seeded": 3, "flip_n": 16, "wall": 600, "echo": 64},
         "thorough": {"cases": 250000, "m_seeded": 12, "flip_n": 32, "wall": 7200, "echo": 256},
     },
 }
